@@ -41,18 +41,38 @@ theorem halted_wants_no_service (e : Engine) (h : e.state = .halted) : e.nextSer
 theorem close_recovers (e : Engine) (h : e.state ≠ .disconnected) : (e.handleClosed).1.state = .disconnected :=
   handleClosed_state e h
 
-/-- **A decoding failure or a protocol violation in inbound data halts the engine and leaves every tracked
-    operation and every queue as it was** (they survive for the next connection or for failure by policy). -/
+/-- **A decoding failure in inbound data halts the engine and leaves every tracked operation and every queue as it was**
+    (they survive for the next connection or for failure by policy) - here for a read that holds nothing well-formed in front of
+    the bad bytes; well-formed packets in front of them are handled first, exactly as if they had arrived in an earlier read
+    (`bad_bytes_do_not_hide_what_came_before`). -/
 theorem decode_error_keeps_operations (e : Engine) (bs : Bytes) (hs : e.state = .connected ∨ e.state = .pendingDisconnect)
     (x : DecErr)
-    (hd : (decodeBytes { version := e.cfg.version, maxSize := e.inboundMax } e.dec bs).err = some x) :
+    (hd : (decodeBytes { version := e.cfg.version, maxSize := e.inboundMax } e.dec bs).err = some x)
+    (hp : (decodeBytes { version := e.cfg.version, maxSize := e.inboundMax } e.dec bs).packets = []) :
     let e' := (e.handleData bs).1
     e'.state = .halted ∧ e'.ops = e.ops ∧ e'.userQ = e.userQ ∧ e'.resubQ = e.resubQ ∧ e'.highQ = e.highQ ∧
     e'.pendingPub = e.pendingPub ∧ e'.pendingNonPub = e.pendingNonPub ∧ e'.outBytes = e.outBytes ∧ e'.outComps = e.outComps ∧
     (∃ k, (e.handleData bs).2 = .err k) := by
   have h1 : (e.state == .disconnected || e.state == .halted) = false := by rcases hs with h | h <;> simp [h]
   have h2 : (e.state == .pendingConnack) = false := by rcases hs with h | h <;> simp [h]
-  simp [Engine.handleData, h1, h2, hd]
+  simp [Engine.handleData, h1, h2, hd, hp, Engine.handlePackets, Res.isOk]
+
+/-- **Bad bytes do not hide what came before them**: what a read does is what its well-formed packets do, one after the
+    other, and only then the verdict on the rest of the read - a well-formed PUBLISH or acknowledgement is handled the same
+    whether the bytes that break the stream arrive in the same read or in the next one. -/
+theorem bad_bytes_do_not_hide_what_came_before (e : Engine) (bs : Bytes) (hs : e.state = .connected ∨ e.state = .pendingDisconnect) :
+    let r := decodeBytes { version := e.cfg.version, maxSize := e.inboundMax } e.dec bs
+    let x := ({ e with dec := r.dec } : Engine).handlePackets r.packets
+    (x.2.isOk = false → e.handleData bs = x) ∧
+    (x.2.isOk = true → r.err = none → e.handleData bs = (x.1, .ok)) ∧
+    (x.2.isOk = true → ∀ d, r.err = some d → (e.handleData bs).1 = { x.1 with state := .halted } ∧ ∃ k, (e.handleData bs).2 = .err k) := by
+  have h1 : (e.state == .disconnected || e.state == .halted) = false := by rcases hs with h | h <;> simp [h]
+  have h2 : (e.state == .pendingConnack) = false := by rcases hs with h | h <;> simp [h]
+  simp only []
+  refine ⟨fun hx => ?_, fun hx he => ?_, fun hx d he => ?_⟩
+  · simp [Engine.handleData, h1, h2, hx]
+  · simp [Engine.handleData, h1, h2, hx, he]
+  · simp [Engine.handleData, h1, h2, hx, he]
 
 /-- AUTH is answered with an error, not a panic -/
 theorem auth_is_an_error (e : Engine) (a : Auth) : e.handlePacket (.auth a) = (e, .err "Unimplemented") := rfl
